@@ -128,7 +128,13 @@ func init() {
 				g.do("addrowitems " + t + " " + joinC([]string{g.strItem(g.r.pick([]string{"", "a", "ab", "世"})), g.strItem(strings.Repeat("-", w2) + "\nz")}))
 				g.do("addrowitems " + t + " " + g.strItem("q"))
 			} else {
+				if c%6 == 3 {
+					o.earlyProp = "align"
+				}
 				t = g.buildTable(o)
+				if o.earlyProp != "" {
+					g.retireDefault(t, "align")
+				}
 			}
 			if sizes || g.r.chance(1, 2) {
 				g.assignProps(t, "align", alignVals)
@@ -266,10 +272,18 @@ func init() {
 					g.do("addrowitems " + t + " " + joinC(ids))
 				}
 			} else {
+				if c%6 == 3 {
+					o.earlyProp = "skip"
+				}
 				t = g.buildTable(o)
+				if o.earlyProp != "" {
+					g.retireDefault(t, "skip")
+				}
 			}
 			g.reattach(t, 1, 8)
-			g.assignProps(t, "skip", skipVals)
+			if c%6 != 3 || g.r.chance(1, 2) {
+				g.assignProps(t, "skip", skipVals)
+			}
 			if g.r.chance(1, 6) {
 				g.assignPropsAtRender(t, "skip", []string{"b0", "b1"})
 			}
@@ -303,9 +317,17 @@ func init() {
 			if g.r.chance(3, 4) {
 				o.headerMode = 1
 			}
+			if c%6 == 3 {
+				o.earlyProp = "align"
+			}
 			t := g.buildTable(o)
+			if o.earlyProp != "" {
+				g.retireDefault(t, "align")
+			}
 			g.reattach(t, 1, 8)
-			g.assignProps(t, "align", alignVals)
+			if c%6 != 3 || g.r.chance(1, 2) {
+				g.assignProps(t, "align", alignVals)
+			}
 			if g.r.chance(1, 5) {
 				g.assignPropsAtRender(t, "align", []string{"a1", "a2", "a3"})
 			}
